@@ -4,6 +4,7 @@ import (
 	"fmt"
 	"go/token"
 	"go/types"
+	"strings"
 
 	"golang.org/x/tools/go/ssa"
 
@@ -61,8 +62,14 @@ func c03(c *eng.Ctx) {
 	c.Rule("R5", "a disabled endpoint is not probed: SetDisabled is always followed by EnsureGatewayHealthCheck, probes start only when not disabled and are cancelled when disabled, a new endpoint starts unhealthy, the probe function is invoked only by the health-check loop, probes run under the endpoint's own context", 7)
 
 	sl := c.Slicer()
+	dsl := deepSlicer(c)
 	// ---- R1
+	// Pop may be spread over helpers (a function of (cluster, upstreams), a partition helper
+	// returning the ready slice, a round-robin helper): its returns are taken with forwarding
+	// returns expanded, and every construct is decided in each context in which it runs as
+	// part of Pop (eng.DownCtx).
 	for _, pop := range popImpls(c) {
+		tree := popTree(c, pop)
 		// appends to endpoint slices that feed the returned endpoint (in Pop or in helpers it calls)
 		var appends []*ssa.Call
 		isAppend := func(v ssa.Value) bool {
@@ -79,21 +86,20 @@ func c03(c *eng.Ctx) {
 			appends = append(appends, call)
 		}
 		// returns
-		eng.Instrs(pop, func(ins ssa.Instruction) {
-			r, ok := ins.(*ssa.Return)
-			if !ok || len(r.Results) != 2 {
-				return
+		for _, er := range tree.Root.EffectiveReturns() {
+			if len(er.Res) != 2 {
+				continue
 			}
-			if eng.IsNilConst(r.Results[0]) {
-				ok := sl.WithArgs().DerivesFrom(r.Results[1], func(v ssa.Value) bool {
+			if eng.IsNilConst(er.Res[0]) {
+				ok := er.Ctx.DerivesFrom(dsl.WithArgs(), er.Res[1], func(v ssa.Value) bool {
 					g, isG := v.(*ssa.Global)
 					return isG && g.Name() == "ErrNoReadyEndpoints"
 				})
-				c.Check("R1", pop, "empty result ⇒ ErrNoReadyEndpoints", r.Pos(), ok, "a nil endpoint must be returned with (a wrap of) ErrNoReadyEndpoints so that the dispatcher answers 503")
-				return
+				c.Check("R1", pop, "empty result ⇒ ErrNoReadyEndpoints", er.Ret.Pos(), ok, "a nil endpoint must be returned with (a wrap of) ErrNoReadyEndpoints so that the dispatcher answers 503")
+				continue
 			}
 			bad := ""
-			for _, leaf := range sl.Leaves(r.Results[0], isAppend) {
+			for _, leaf := range er.Ctx.Leaves(dsl, er.Res[0], isAppend) {
 				switch {
 				case isAppend(leaf):
 					addAppend(leaf)
@@ -107,61 +113,81 @@ func c03(c *eng.Ctx) {
 					bad = fmt.Sprintf("returned endpoint may come from %s (%T), not from the filtered ready slice", leaf.Name(), leaf)
 				}
 			}
-			c.Check("R1", pop, "returned endpoint ∈ ready slice", r.Pos(), bad == "", bad)
-		})
+			c.Check("R1", pop, "returned endpoint ∈ ready slice", er.Ret.Pos(), bad == "", bad)
+		}
 		for k, ap := range appends {
 			construct := fmt.Sprintf("append-ready#%d", k+1)
-			// the appended element(s)
-			var elems []ssa.Value
-			for _, a := range ap.Call.Args[1:] {
-				for _, leaf := range sl.Leaves(a, func(v ssa.Value) bool {
-					cc, _ := eng.CallResultOf(v)
-					return cc != nil
-				}) {
-					if al, ok := leaf.(*ssa.Alloc); ok {
-						_ = al
+			ok, detail := true, ""
+			fail := func(d string) { ok, detail = false, d }
+			n := 0
+			for _, d := range ctxsOf(tree, ap.Parent()) {
+				// the appended element(s)
+				var elems []ssa.Value
+				for _, a := range ap.Call.Args[1:] {
+					for _, leaf := range d.Leaves(sl, a, func(v ssa.Value) bool {
+						cc, _ := eng.CallResultOf(v)
+						return cc != nil
+					}) {
+						if _, isAl := leaf.(*ssa.Alloc); isAl {
+							continue
+						}
+						elems = append(elems, leaf)
+					}
+				}
+				n += len(elems)
+				for _, e := range elems {
+					e := e
+					cc, idx := eng.CallResultOf(e)
+					if cc == nil || idx != 0 || !eng.IsCall(cc, "(*"+tEndpointInfoMap+").Load") {
+						fail("appended element is not the result of Endpoints.Load(name)")
 						continue
 					}
-					elems = append(elems, leaf)
+					// receiver: s.cluster.Endpoints, name ranges over s.upstreams — in every context the
+					// lookup runs in as part of this Pop
+					// (the map itself may be handed to a helper: the receiver is resolved in the context)
+					for _, dl := range ctxsOf(tree, cc.Parent()) {
+						recv := dl.Canon(eng.Receiver(cc))
+						base := eng.FieldBase(recv.V, tClusterInfo, "Endpoints")
+						if base == nil || !recv.C.DerivesFrom(dsl, base, func(v ssa.Value) bool { return eng.FieldLoadOf(v, tPickStrategy, "cluster") }) {
+							fail("endpoint is not loaded from the picker's own cluster map")
+						}
+						if !dl.DerivesFrom(dsl, eng.Args(cc)[0], func(v ssa.Value) bool { return eng.FieldLoadOf(v, tPickStrategy, "upstreams") }) {
+							fail("endpoint name does not range over the picker's upstreams")
+						}
+					}
+					// guards: loaded == true, e.IsReady() == true
+					isLoaded := func(v ssa.Value) bool {
+						c2, i2 := eng.CallResultOf(v)
+						return c2 == cc && i2 == 1
+					}
+					loadedOK := eng.GuardedByBool(ap, isLoaded, true) || d.HoldsRel(ap, func(r eng.Rel, _ *eng.DownCtx) bool { return relIsBool(r, isLoaded, true) })
+					readyOK := eng.GuardedByBool(ap, func(v ssa.Value) bool {
+						c2, _ := eng.CallResultOf(v)
+						return c2 != nil && eng.IsCall(c2, "(*"+tEndpointInfo+").IsReady") && eng.Receiver(c2) == e
+					}, true) || d.Holds(ap, func(f eng.Fact, at *eng.DownCtx) bool {
+						// IsReady() of the same endpoint, possibly tested in a helper the endpoint was handed to
+						return relIsBool(f.Rel, func(v ssa.Value) bool {
+							c2, _ := eng.CallResultOf(v)
+							if c2 == nil || !eng.IsCall(c2, "(*"+tEndpointInfo+").IsReady") {
+								return false
+							}
+							recv, env := f.Env.Resolve(eng.Receiver(c2))
+							if recv == e {
+								return true
+							}
+							return env == nil && at.Canon(recv).V == e
+						}, true)
+					})
+					if !loadedOK {
+						fail("append is not control-dependent on the endpoint being present in the cluster's current server list")
+					}
+					if !readyOK {
+						fail("append is not control-dependent on IsReady() of the same endpoint (disabled or unhealthy endpoints would get traffic)")
+					}
 				}
 			}
-			ok := len(elems) > 0
-			detail := ""
-			for _, e := range elems {
-				cc, idx := eng.CallResultOf(e)
-				if cc == nil || idx != 0 || !eng.IsCall(cc, "(*"+tEndpointInfoMap+").Load") {
-					ok = false
-					detail = "appended element is not the result of Endpoints.Load(name)"
-					continue
-				}
-				// receiver: s.cluster.Endpoints
-				if !eng.FieldLoadOf(eng.Receiver(cc), tClusterInfo, "Endpoints") {
-					ok = false
-					detail = "endpoint is not loaded from the picker's own cluster map"
-				}
-				// name ranges over s.upstreams
-				nameOK := sl.DerivesFrom(eng.Args(cc)[0], func(v ssa.Value) bool { return eng.FieldLoadOf(v, tPickStrategy, "upstreams") })
-				if !nameOK {
-					ok = false
-					detail = "endpoint name does not range over the picker's upstreams"
-				}
-				// guards: loaded == true, e.IsReady() == true
-				loadedOK := eng.GuardedByBool(ap, func(v ssa.Value) bool {
-					c2, i2 := eng.CallResultOf(v)
-					return c2 == cc && i2 == 1
-				}, true)
-				readyOK := eng.GuardedByBool(ap, func(v ssa.Value) bool {
-					c2, _ := eng.CallResultOf(v)
-					return c2 != nil && eng.IsCall(c2, "(*"+tEndpointInfo+").IsReady") && eng.Receiver(c2) == e
-				}, true)
-				if !loadedOK {
-					ok = false
-					detail = "append is not control-dependent on the endpoint being present in the cluster's current server list"
-				}
-				if !readyOK {
-					ok = false
-					detail = "append is not control-dependent on IsReady() of the same endpoint (disabled or unhealthy endpoints would get traffic)"
-				}
+			if n == 0 {
+				fail("no appended element found")
 			}
 			c.Check("R1", pop, construct, ap.Pos(), ok, detail)
 		}
@@ -171,11 +197,17 @@ func c03(c *eng.Ctx) {
 	}
 
 	// ---- R2
-	if isReady := c.MustMethod(pkgClusters, "endpointStatus", "IsReady"); isReady != nil {
+	eir := c.MustMethod(pkgClusters, "EndpointInfo", "IsReady")
+	if isReady := c03StatusReady(c, eir); isReady != nil {
 		force := func(name string, pins map[string]eng.AV, want bool) {
-			in := &eng.Interp{W: c.W, Depth: 0, PinPath: func(p string) (eng.AV, bool) {
-				av, ok := pins[p]
-				return av, ok
+			// memory cells are access paths ("s.Disabled", or "e.status.Disabled" when the status method
+			// was merged into EndpointInfo.IsReady): pinned by their last field
+			in := &eng.Interp{W: c.W, Depth: eng.LiftDepth, PinPath: func(p string) (eng.AV, bool) {
+				if i := strings.LastIndex(p, "."); i >= 0 {
+					av, ok := pins[p[i:]]
+					return av, ok
+				}
+				return eng.AV{}, false
 			}}
 			rs, err := in.Run(isReady, nil)
 			ok := err == nil && len(rs) > 0
@@ -186,47 +218,53 @@ func c03(c *eng.Ctx) {
 			}
 			c.Check("R2", isReady, name, isReady.Pos(), ok, fmt.Sprintf("pinning the status fields this way must force IsReady()=%v on every path", want))
 		}
-		rn := isReady.Params[0].Name() // receiver name: memory cells are "<receiver>.<field>"
-		force("Disabled=true ⇒ false", map[string]eng.AV{rn + ".Disabled": eng.AVBool(true)}, false)
-		force("Healthy=false ⇒ false", map[string]eng.AV{rn + ".Healthy": eng.AVBool(false)}, false)
-		force("enabled ∧ healthy ⇒ true", map[string]eng.AV{rn + ".Healthy": eng.AVBool(true), rn + ".Disabled": eng.AVBool(false)}, true)
-		// reads under the mutex
+		force("Disabled=true ⇒ false", map[string]eng.AV{".Disabled": eng.AVBool(true)}, false)
+		force("Healthy=false ⇒ false", map[string]eng.AV{".Healthy": eng.AVBool(false)}, false)
+		force("enabled ∧ healthy ⇒ true", map[string]eng.AV{".Healthy": eng.AVBool(true), ".Disabled": eng.AVBool(false)}, true)
+		// reads under the mutex (in IsReady or in a helper it reads the fields through)
 		isLock := func(ins ssa.Instruction) bool {
 			return eng.IsPlainCall(ins, "(*sync.RWMutex).RLock", "(*sync.RWMutex).Lock") && eng.FieldAddrOf(eng.Receiver(ins.(ssa.CallInstruction)), tEndpointStatus, "mux")
 		}
 		isUnlock := func(ins ssa.Instruction) bool {
 			return eng.IsPlainCall(ins, "(*sync.RWMutex).RUnlock", "(*sync.RWMutex).Unlock")
 		}
-		eng.Instrs(isReady, func(ins ssa.Instruction) {
-			u, ok := ins.(*ssa.UnOp)
-			if !ok || u.Op != token.MUL {
-				return
-			}
-			for _, f := range []string{"Disabled", "Healthy"} {
-				if eng.FieldAddrOf(u.X, tEndpointStatus, f) {
-					held := eng.AlwaysBefore(isReady, ins, isLock) && eng.ReachFromEntry(isReady, eng.PathQuery{
-						Target:    func(i ssa.Instruction) bool { return i == ins },
-						Avoid:     func(i ssa.Instruction) bool { return false },
-						BlockEdge: nil,
-					}) != nil
-					// no unlock between lock and read
-					unl := false
-					eng.Instrs(isReady, func(i2 ssa.Instruction) {
-						if isLock(i2) && eng.ReachAfter(i2, eng.PathQuery{Target: func(i ssa.Instruction) bool { return i == ins }, Avoid: isUnlock}) == nil {
-							unl = true
-						}
-					})
-					c.Check("R2", isReady, "read "+f+" under status mutex", ins.Pos(), held && !unl, "status fields are read inside the mutex region")
+		for _, fn := range c.W.Region(isReady) {
+			fn := fn
+			eng.Instrs(fn, func(ins ssa.Instruction) {
+				u, ok := ins.(*ssa.UnOp)
+				if !ok || u.Op != token.MUL {
+					return
 				}
-			}
-		})
+				for _, f := range []string{"Disabled", "Healthy"} {
+					if eng.FieldAddrOf(u.X, tEndpointStatus, f) {
+						held := eng.AlwaysBefore(fn, ins, isLock) && eng.ReachFromEntry(fn, eng.PathQuery{
+							Target:    func(i ssa.Instruction) bool { return i == ins },
+							Avoid:     func(i ssa.Instruction) bool { return false },
+							BlockEdge: nil,
+						}) != nil
+						// no unlock between lock and read
+						unl := false
+						eng.Instrs(fn, func(i2 ssa.Instruction) {
+							if isLock(i2) && eng.ReachAfter(i2, eng.PathQuery{Target: func(i ssa.Instruction) bool { return i == ins }, Avoid: isUnlock}) == nil {
+								unl = true
+							}
+						})
+						c.Check("R2", isReady, "read "+f+" under status mutex", ins.Pos(), held && !unl, "status fields are read inside the mutex region")
+					}
+				}
+			})
+		}
 	}
-	if eir := c.MustMethod(pkgClusters, "EndpointInfo", "IsReady"); eir != nil {
+	if eir != nil {
 		ok := true
+		status := c03StatusReadyQuiet(c, eir)
 		eng.Instrs(eir, func(ins ssa.Instruction) {
-			if r, isR := ins.(*ssa.Return); isR {
-				cc, _ := eng.CallResultOf(r.Results[0])
-				if cc == nil || !eng.IsCall(cc, "(*"+tEndpointStatus+").IsReady") || !eng.FieldLoadOf(eng.Receiver(cc), tEndpointInfo, "status") {
+			if r, isR := ins.(*ssa.Return); isR && status != eir {
+				cc, _ := eng.CallResultOf(eng.ReturnResults(r)[0])
+				if r.Block() == eir.Recover {
+					return
+				}
+				if cc == nil || cc.Call.StaticCallee() == nil || cc.Call.StaticCallee() != status || !eng.FieldLoadOf(eng.Receiver(cc), tEndpointInfo, "status") {
 					ok = false
 				}
 			}
@@ -236,39 +274,124 @@ func c03(c *eng.Ctx) {
 
 	// ---- R3
 	if ma := c.MustMethod(pkgClusters, "ClusterInfo", "MatchAttributes"); ma != nil {
-		// the picker may be built in MatchAttributes itself or in a helper extracted from it
-		stores := eng.StoresToField(c.W.Region(ma), tPickStrategy, "upstreams")
+		// the picker may be built in MatchAttributes itself or in a helper extracted from it, and the
+		// choice between the subset and all endpoints may be an if/else around two stores, one store
+		// of a variable assigned in two branches, or one store of the result of a helper that returns
+		// either: every store is expanded into the values it may take (eng.Alternatives), each with
+		// the facts of the path it is selected on.
+		tree := c.W.Down(ma, eng.LiftDepth, nil)
 		slUp := sl.WithUp()
-		subsetSeen, allSeen := false, false
-		for _, st := range stores {
-			fromSubset := sl.DerivesFrom(st.Val, func(v ssa.Value) bool {
-				return eng.FieldLoadOf(v, pkgV1alpha1+".DispatchPolicy", "UpstreamSubset")
-			})
-			fromAll := sl.DerivesFrom(st.Val, func(v ssa.Value) bool {
-				cc, _ := eng.CallResultOf(v)
-				return cc != nil && (eng.IsCall(cc, "(*"+tClusterInfo+").AllEndpoints") || eng.IsCall(cc, "(*"+tEndpointInfoMap+").Names"))
-			})
-			lenSubset := func(v ssa.Value) bool {
-				cc, ok := v.(*ssa.Call)
-				return ok && isBuiltin(cc, "len") && eng.FieldLoadOf(cc.Call.Args[0], pkgV1alpha1+".DispatchPolicy", "UpstreamSubset")
+		isSubset := func(v ssa.Value) bool { return eng.FieldLoadOf(v, pkgV1alpha1+".DispatchPolicy", "UpstreamSubset") }
+		isAllNames := func(v ssa.Value) bool {
+			cc, _ := eng.CallResultOf(v)
+			return cc != nil && (eng.IsCall(cc, "(*"+tClusterInfo+").AllEndpoints") || eng.IsCall(cc, "(*"+tEndpointInfoMap+").Names"))
+		}
+		// isAllNamesIn: also the call of a function value that is the method value c.AllEndpoints /
+		// Endpoints.Names handed to a helper (`subsetOrAll(subset, c.AllEndpoints)`)
+		isAllNamesIn := func(v ssa.Value, at *eng.DownCtx) bool {
+			if isAllNames(v) {
+				return true
+			}
+			cc, _ := eng.CallResultOf(v)
+			if cc == nil || cc.Call.IsInvoke() || cc.Call.StaticCallee() != nil {
+				return false
+			}
+			if _, isB := cc.Call.Value.(*ssa.Builtin); isB {
+				return false
+			}
+			f := c.W.FuncOfValue(at.Canon(cc.Call.Value).V)
+			if f == nil || f.Signature.Recv() == nil {
+				return false
+			}
+			rt := eng.TypeName(f.Signature.Recv().Type())
+			return (rt == tClusterInfo && f.Name() == "AllEndpoints") || (rt == tEndpointInfoMap && f.Name() == "Names")
+		}
+		// lenSubsetRel: r compares len(policy.UpstreamSubset) with zero; nonEmpty tells which way
+		lenSubsetRel := func(r eng.Rel, at *eng.DownCtx) (nonEmpty, isRel bool) {
+			r = eng.NormRel(r)
+			x := convOf(r.X)
+			if at != nil {
+				x = convOf(at.Canon(x).V)
+			}
+			cc, ok := x.(*ssa.Call)
+			if !ok || !isBuiltin(cc, "len") {
+				return false, false
+			}
+			// the measured slice is the policy's subset — directly, or as the argument bound to the
+			// parameter of a helper that is handed the subset instead of the policy
+			if arg := cc.Call.Args[0]; !isSubset(arg) && !(at != nil && isSubset(at.Canon(arg).V)) {
+				return false, false
+			}
+			z, isInt := eng.IntConst(r.Y)
+			if !isInt {
+				return false, false
 			}
 			switch {
-			case fromSubset && !fromAll:
-				subsetSeen = true
-				ok := eng.GuardedBy(st, func(r eng.Rel) bool {
-					z, isInt := eng.IntConst(r.Y)
-					return lenSubset(r.X) && isInt && z == 0 && (r.Op == token.NEQ || r.Op == token.GTR)
-				})
-				c.Check("R3", ma, "upstreams = policy.UpstreamSubset when non-empty", st.Pos(), ok, "the subset is used exactly on the len(UpstreamSubset) != 0 edge")
-			case fromAll && !fromSubset:
-				allSeen = true
-				ok := eng.GuardedBy(st, func(r eng.Rel) bool {
-					z, isInt := eng.IntConst(r.Y)
-					return lenSubset(r.X) && isInt && z == 0 && (r.Op == token.EQL || r.Op == token.LEQ)
-				})
-				c.Check("R3", ma, "upstreams = all endpoints when no subset", st.Pos(), ok, "all endpoints are used only when the policy lists no subset")
-			default:
-				c.Fail("R3", ma, "upstreams store of unknown origin", st.Pos(), "the picker's upstreams must be the policy's subset or the cluster's endpoint names")
+			case z == 0 && (r.Op == token.NEQ || r.Op == token.GTR), z == 1 && r.Op == token.GEQ:
+				return true, true
+			case z == 0 && (r.Op == token.EQL || r.Op == token.LEQ), z == 1 && r.Op == token.LSS:
+				return false, true
+			}
+			return false, false
+		}
+		// survivesOnlyUnder: the value written by st reaches an exit of its function (is not
+		// overwritten by a later store to the same field of the same picker) only on paths that
+		// traverse an edge on which len(UpstreamSubset) is non-zero (nonEmpty) / zero — the
+		// "assign the default, then override it under the condition" form of the if/else
+		survivesOnlyUnder := func(st *ssa.Store, nonEmpty bool) bool {
+			fa, isFA := st.Addr.(*ssa.FieldAddr)
+			if !isFA {
+				return false
+			}
+			isOverride := func(i ssa.Instruction) bool {
+				s2, ok := i.(*ssa.Store)
+				if !ok || s2 == st || !eng.FieldAddrOf(s2.Addr, tPickStrategy, "upstreams") {
+					return false
+				}
+				return s2.Addr.(*ssa.FieldAddr).X == fa.X
+			}
+			return eng.ReachAfter(st, eng.PathQuery{Target: eng.IsExit, Avoid: isOverride, BlockEdge: func(from *ssa.BasicBlock, idx int) bool {
+				for _, r := range eng.EdgeRels(from, idx) {
+					if ne, isRel := lenSubsetRel(r, nil); isRel && ne == nonEmpty {
+						return true
+					}
+				}
+				return false
+			}}) == nil
+		}
+		subsetSeen, allSeen, polOK := false, false, false
+		seenStore := map[*ssa.Store]bool{}
+		for _, d := range tree.All() {
+			for _, st := range eng.StoresToField([]*ssa.Function{d.Fn}, tPickStrategy, "upstreams") {
+				if !seenStore[st] && d.DerivesFrom(slUp, st.Val, func(v ssa.Value) bool {
+					cc, _ := eng.CallResultOf(v)
+					return cc != nil && eng.IsCall(cc, pkgClusters+".MatchPolicies")
+				}) {
+					polOK = true
+				}
+				seenStore[st] = true
+				for _, alt := range d.Alternatives(st.Val, st, func(v ssa.Value) bool { return isSubset(v) || isAllNames(v) }) {
+					fromSubset := isSubset(alt.V) || alt.Ctx.DerivesFrom(sl, alt.V, isSubset)
+					fromAll := isAllNamesIn(alt.V, alt.Ctx) || alt.Ctx.DerivesFrom(sl, alt.V, isAllNames)
+					switch {
+					case fromSubset && !fromAll:
+						subsetSeen = true
+						ok := alt.Holds(func(r eng.Rel, at *eng.DownCtx) bool {
+							nonEmpty, isRel := lenSubsetRel(r, at)
+							return isRel && nonEmpty
+						}) || survivesOnlyUnder(st, true)
+						c.Check("R3", ma, "upstreams = policy.UpstreamSubset when non-empty", st.Pos(), ok, "the subset is used exactly on the len(UpstreamSubset) != 0 edge")
+					case fromAll && !fromSubset:
+						allSeen = true
+						ok := alt.Holds(func(r eng.Rel, at *eng.DownCtx) bool {
+							nonEmpty, isRel := lenSubsetRel(r, at)
+							return isRel && !nonEmpty
+						}) || survivesOnlyUnder(st, false)
+						c.Check("R3", ma, "upstreams = all endpoints when no subset", st.Pos(), ok, "all endpoints are used only when the policy lists no subset")
+					default:
+						c.Fail("R3", ma, "upstreams store of unknown origin", st.Pos(), "the picker's upstreams must be the policy's subset or the cluster's endpoint names")
+					}
+				}
 			}
 		}
 		if !subsetSeen {
@@ -278,22 +401,31 @@ func c03(c *eng.Ctx) {
 			c.Fail("R3", ma, "upstreams = all endpoints when no subset", ma.Pos(), "no fallback to all endpoints")
 		}
 		// the policy is MatchPolicies' result
-		polOK := false
-		for _, st := range stores {
-			if slUp.DerivesFrom(st.Val, func(v ssa.Value) bool {
-				cc, _ := eng.CallResultOf(v)
-				return cc != nil && eng.IsCall(cc, pkgClusters+".MatchPolicies")
-			}) {
-				polOK = true
-			}
-		}
 		c.Check("R3", ma, "subset belongs to the matched policy", ma.Pos(), polOK, "UpstreamSubset must be read from the policy returned by MatchPolicies")
 	}
 
 	// ---- R4
+	// ServeHTTP may hand the admitted request to a forwarding helper (picking, URL, watcher and
+	// proxy handler then sit in the helper): every construct is looked up in the Region of
+	// ServeHTTP, guards are lifted through the helpers' call sites, and the Pop results are
+	// recognised also after they went through a helper that hands them on.
 	if sh := c.MustMethod(pkgDispatcher, "dispatcher", "ServeHTTP"); sh != nil {
-		pops := eng.CallsTo(sh, "("+pkgClusters+".EndpointPicker).Pop")
-		if len(pops) != 1 || eng.InLoop(pops[0].Block()) {
+		region := c.W.Region(sh)
+		callsIn := func(names ...string) []ssa.CallInstruction {
+			var out []ssa.CallInstruction
+			for _, fn := range region {
+				out = append(out, eng.CallsTo(fn, names...)...)
+			}
+			return out
+		}
+		pops := callsIn("(" + pkgClusters + ".EndpointPicker).Pop")
+		once := len(pops) == 1 && !eng.InLoop(pops[0].Block())
+		if once {
+			// the function holding the Pop runs once per request
+			sites := c.W.SitesIn(sh, pops[0])
+			once = len(sites) == 1 && !eng.InLoop(sites[0].Block())
+		}
+		if !once {
 			c.Fail("R4", sh, "single Pop", sh.Pos(), fmt.Sprintf("expected exactly one Pop() outside loops, found %d", len(pops)))
 		} else {
 			pop := pops[0].(*ssa.Call)
@@ -301,19 +433,83 @@ func c03(c *eng.Ctx) {
 				cc, idx := eng.CallResultOf(v)
 				return cc == pop && idx == 0
 			}
-			isPopErr := func(v ssa.Value) bool {
+			rawPopErr := func(v ssa.Value) bool {
 				cc, idx := eng.CallResultOf(v)
 				return cc == pop && idx == 1
 			}
+			// the error of Pop, possibly handed on by a picking helper (every origin is Pop's error or nil)
+			isPopErr := func(v ssa.Value) bool {
+				if rawPopErr(v) {
+					return true
+				}
+				if v == nil || !types.Identical(v.Type(), pop.Call.Signature().Results().At(1).Type()) {
+					return false
+				}
+				n := 0
+				for _, l := range sl.Leaves(v, rawPopErr) {
+					switch {
+					case rawPopErr(l):
+						n++
+					case eng.IsNilConst(l):
+					default:
+						return false
+					}
+				}
+				return n > 0
+			}
 			c.Pass("R4", sh, "single Pop", pop.Pos(), "")
-			sa := c.Slicer().WithArgs().WithUp()
+			slu := sl.WithUp()
+			tree := c.W.Down(sh, eng.LiftDepth, nil)
+			// guardedNil: ins runs only when the value identified by match is nil / non-nil — by a guard
+			// of ins, of the call sites of the helper it sits in, or by the ok flag of a helper that
+			// tested it (`endpoint, ok := d.pick(…); if !ok { return }`)
+			guardedNil := func(ins ssa.Instruction, match func(ssa.Value) bool, wantNil bool) bool {
+				if eng.GuardedByNil(ins, match, wantNil) {
+					return true
+				}
+				ds := tree.Of(ins.Parent())
+				for _, d := range ds {
+					if !d.HoldsRel(ins, func(r eng.Rel, at *eng.DownCtx) bool {
+						// a guard on a parameter of a helper is a guard on the value bound to it
+						return relIsNil(r, func(v ssa.Value) bool { return match(v) || match(at.Canon(v).V) }, wantNil)
+					}) {
+						return false
+					}
+				}
+				return len(ds) > 0
+			}
+			// originsOf: the leaves of v, looking through calls of functions outside the repository
+			// (url.Parse(endpoint.Endpoint) derives from its argument) but not through the arguments of
+			// repository helpers, which are followed into their bodies instead
+			var originsOf func(v ssa.Value, depth int) []ssa.Value
+			originsOf = func(v ssa.Value, depth int) []ssa.Value {
+				var out []ssa.Value
+				for _, l := range slu.Leaves(v, isPopRes) {
+					cc, _ := eng.CallResultOf(l)
+					if cc == nil || isPopRes(l) || depth <= 0 {
+						out = append(out, l)
+						continue
+					}
+					if f := cc.Call.StaticCallee(); f != nil && eng.Analysable(f) {
+						out = append(out, l) // a repository function too deep to follow
+						continue
+					}
+					if _, isB := cc.Call.Value.(*ssa.Builtin); !isB && (cc.Call.IsInvoke() || cc.Call.StaticCallee() == nil) {
+						out = append(out, originsOf(cc.Call.Value, depth-1)...)
+					}
+					for _, a := range cc.Call.Args {
+						out = append(out, originsOf(a, depth-1)...)
+					}
+				}
+				return out
+			}
 			// URL scheme/host (the URL may be assembled in a helper extracted from ServeHTTP)
 			for _, f := range []string{"Scheme", "Host"} {
-				sts := eng.StoresToField(c.W.Region(sh), "net/url.URL", f)
+				sts := eng.StoresToField(region, "net/url.URL", f)
 				ok := len(sts) > 0
 				for _, st := range sts {
 					fromPop := false
-					for _, leaf := range sa.Leaves(st.Val, isPopRes) {
+					for _, leaf := range originsOf(st.Val, 3) {
 						if isPopRes(leaf) {
 							fromPop = true
 						} else if _, isP := leaf.(*ssa.Parameter); isP {
@@ -327,19 +523,19 @@ func c03(c *eng.Ctx) {
 				c.Check("R4", sh, "forward URL "+f+" from the picked endpoint", sh.Pos(), ok, "the target "+f+" must derive from the Pop() result only")
 			}
 			// transports
-			for _, ci := range eng.CallsTo(sh, pkgDispatcher+".NewUpgradeAwareHandler") {
+			for _, ci := range callsIn(pkgDispatcher + ".NewUpgradeAwareHandler") {
 				a := eng.Args(ci)
 				ok := len(a) >= 3 && eng.FieldLoadOf(a[1], tEndpointInfo, "ProxyTransport") && eng.FieldLoadOf(a[2], tEndpointInfo, "PorxyUpgradeTransport") &&
-					sl.DerivesFrom(a[1], isPopRes) && sl.DerivesFrom(a[2], isPopRes)
+					slu.DerivesFrom(a[1], isPopRes) && slu.DerivesFrom(a[2], isPopRes)
 				c.Check("R4", sh, "both transports of the picked endpoint", ci.Pos(), ok, "the proxy handler must use the transports of the Pop() result")
 				// dominated by err == nil of Pop
-				g := eng.GuardedByNil(ci, isPopErr, true)
+				g := guardedNil(ci, isPopErr, true)
 				c.Check("R4", sh, "forwarding only when Pop succeeded", ci.Pos(), g, "the proxy handler is reached only on the err == nil edge of Pop")
 			}
 			// SetProxyForwarded
-			for _, ci := range eng.CallsTo(sh, pkgRequest+".SetProxyForwarded") {
+			for _, ci := range callsIn(pkgRequest + ".SetProxyForwarded") {
 				a := eng.Args(ci)
-				ok := len(a) == 2 && sl.DerivesFrom(a[1], isPopRes)
+				ok := len(a) == 2 && slu.DerivesFrom(a[1], isPopRes)
 				c.Check("R4", sh, "forwarded mark names the picked endpoint", ci.Pos(), ok, "")
 			}
 			// cancel watcher
@@ -348,7 +544,7 @@ func c03(c *eng.Ctx) {
 				for _, ci := range eng.CallsTo(fn, "(*"+tEndpointInfo+").Context") {
 					found = true
 					// the watcher may be a closure of ServeHTTP or an extracted function started with go
-					ok := sl.WithUp().DerivesFrom(eng.Receiver(ci), isPopRes)
+					ok := slu.DerivesFrom(eng.Receiver(ci), isPopRes)
 					c.Check("R4", fn, "cancel-watch context of the picked endpoint", ci.Pos(), ok, "the goroutine must watch the context of the endpoint that serves this request")
 				}
 			}
@@ -357,8 +553,8 @@ func c03(c *eng.Ctx) {
 			}
 			// Pop error ⇒ 503
 			ok503 := false
-			for _, ci := range eng.CallsTo(sh, "k8s.io/apimachinery/pkg/api/errors.NewServiceUnavailable") {
-				if eng.GuardedByNil(ci, isPopErr, false) {
+			for _, ci := range callsIn("k8s.io/apimachinery/pkg/api/errors.NewServiceUnavailable") {
+				if guardedNil(ci, isPopErr, false) {
 					ok503 = true
 				}
 			}
@@ -367,81 +563,120 @@ func c03(c *eng.Ctx) {
 	}
 
 	// ---- R5
-	if au := c.MustMethod(pkgClusters, "ClusterInfo", "addOrUpdateEndpoint"); au != nil {
-		isEnsure := func(ins ssa.Instruction) bool { return eng.IsPlainCall(ins, pkgClusters+".EnsureGatewayHealthCheck") }
+	// addOrUpdateEndpoint may build a new endpoint in a helper and share one health-check call
+	// between the update and the add branch: constructs are looked up in its Region, "followed
+	// by" continues at the call sites of a helper, and the endpoint a merged call is about is the
+	// value the variable has on the paths through the construct (eng.ValuesAfter).
+	if au := c03AddUpdateAnchor(c); au != nil {
+		region := c.W.Region(au)
+		ensureName := pkgClusters + ".EnsureGatewayHealthCheck"
 		n := 0
-		for _, ci := range eng.CallsTo(au, "(*"+tEndpointInfo+").SetDisabled") {
-			n++
-			ok := eng.AlwaysAfter(ci, isEnsure)
-			// same endpoint
-			if ok {
-				x := eng.ReachAfter(ci, eng.PathQuery{Target: isEnsure})
-				if x != nil && eng.Args(x.(ssa.CallInstruction))[0] != eng.Receiver(ci) {
-					ok = false
-				}
+		for _, fn := range region {
+			for _, ci := range eng.CallsTo(fn, "(*"+tEndpointInfo+").SetDisabled") {
+				n++
+				ok := c03EnsureFollows(c, ci, eng.Receiver(ci), eng.LiftDepth)
+				c.Check("R5", au, "SetDisabled ⇒ EnsureGatewayHealthCheck", ci.Pos(), ok, "changing the disabled flag must be followed by (re)evaluating the probe goroutines of the same endpoint")
 			}
-			c.Check("R5", au, "SetDisabled ⇒ EnsureGatewayHealthCheck", ci.Pos(), ok, "changing the disabled flag must be followed by (re)evaluating the probe goroutines of the same endpoint")
 		}
 		if n == 0 {
 			c.Fail("R5", au, "SetDisabled ⇒ EnsureGatewayHealthCheck", au.Pos(), "the disabled flag of an existing endpoint is never updated")
 		}
-		// probes die with their endpoint: every EnsureGatewayHealthCheck here is given the endpoint's own context
-		for _, ci := range eng.CallsTo(au, pkgClusters+".EnsureGatewayHealthCheck") {
-			a := eng.Args(ci)
-			own := len(a) == 3 && eng.FieldLoadOf(a[2], tEndpointInfo, "ctx")
-			if own {
-				if u, isU := a[2].(*ssa.UnOp); isU {
-					if fa, isFA := u.X.(*ssa.FieldAddr); isFA {
-						own = fa.X == a[0]
-					}
+		// probes die with their endpoint: every EnsureGatewayHealthCheck here is given the endpoint's own
+		// context — one obligation per endpoint the call may be about (an updated one, a new one)
+		for _, fn := range region {
+			for _, ci := range eng.CallsTo(fn, ensureName) {
+				a := eng.Args(ci)
+				own := len(a) == 3 && c03OwnCtx(a[2], a[0])
+				k := 1
+				if len(a) > 0 {
+					k = c03EndpointOrigins(c, a[0], eng.LiftDepth)
+				}
+				for ; k > 0; k-- {
+					c.Check("R5", au, "probes run under the endpoint's own context", ci.Pos(), own,
+						"the health check of an endpoint must stop when the endpoint is removed: started under the cluster's context an orphan prober survives removal, and a later re-added, disabled endpoint of the same address keeps being probed")
 				}
 			}
-			c.Check("R5", au, "probes run under the endpoint's own context", ci.Pos(), own,
-				"the health check of an endpoint must stop when the endpoint is removed: started under the cluster's context an orphan prober survives removal, and a later re-added, disabled endpoint of the same address keeps being probed")
 		}
 		// initial status: Healthy false
-		for _, st := range eng.StoresToField([]*ssa.Function{au}, tEndpointStatus, "Healthy") {
+		for _, st := range eng.StoresToField(region, tEndpointStatus, "Healthy") {
 			c.Check("R5", au, "new endpoint starts unhealthy", st.Pos(), eng.IsBoolConst(st.Val, false), "a new endpoint must not be ready before its first successful probe")
 		}
 		// Disabled initial from the parameter
-		for _, st := range eng.StoresToField([]*ssa.Function{au}, tEndpointStatus, "Disabled") {
-			p, isP := st.Val.(*ssa.Parameter)
+		for _, st := range eng.StoresToField(region, tEndpointStatus, "Disabled") {
+			v := c.W.ResolveUpTo(unspill(st.Val), au)
+			p, isP := v.(*ssa.Parameter)
 			isBool := false
 			if isP {
 				b, ok := p.Type().Underlying().(*types.Basic)
-				isBool = ok && b.Kind() == types.Bool
+				isBool = ok && b.Kind() == types.Bool && p.Parent() == au
+			}
+			if !(isP && isBool) {
+				// the add/update function was merged into the sync function, which takes the servers and
+				// not a flag: the value must at least be computed, not a constant
+				hasFlag := false
+				for _, q := range au.Params {
+					if b, ok := q.Type().Underlying().(*types.Basic); ok && b.Kind() == types.Bool {
+						hasFlag = true
+					}
+				}
+				_, isConst := v.(*ssa.Const)
+				isBool = !hasFlag && !isConst
+				isP = isBool
 			}
 			c.Check("R5", au, "new endpoint's disabled flag from the spec", st.Pos(), isP && isBool, "")
 		}
 	}
+	start := c03ProbeStarter(c)
 	if eg := c.MustFunc(pkgClusters, "EnsureGatewayHealthCheck"); eg != nil {
+		region := c.W.Region(eg)
 		isDisabledCall := func(v ssa.Value) bool {
 			cc, _ := eng.CallResultOf(v)
-			return cc != nil && eng.IsCall(cc, "(*"+tEndpointInfo+").IstDisabled") && eng.Receiver(cc) == ssa.Value(eg.Params[0])
+			return cc != nil && eng.IsCall(cc, "(*"+tEndpointInfo+").IstDisabled") && c.W.ResolveUpTo(unspill(eng.Receiver(cc)), eg) == ssa.Value(eg.Params[0])
 		}
 		n := 0
-		for _, ci := range eng.CallsTo(eg, pkgClusters+".startGatewayHealthCheck") {
-			n++
-			c.Check("R5", eg, "probes start only when enabled", ci.Pos(), eng.GuardedByBool(ci, isDisabledCall, false), "startGatewayHealthCheck must be control-dependent on !IstDisabled()")
+		for _, fn := range region {
+			if start == nil || start == eg {
+				break
+			}
+			for _, ci := range eng.CallsToFn(fn, start) {
+				n++
+				c.Check("R5", eg, "probes start only when enabled", ci.Pos(), eng.GuardedByBool(ci, isDisabledCall, false), "startGatewayHealthCheck must be control-dependent on !IstDisabled()")
+			}
+		}
+		if start == eg {
+			// the single-use start function was merged into EnsureGatewayHealthCheck: the go statements
+			// that start the prober goroutines are the probe start
+			for _, fn := range region {
+				eng.Instrs(fn, func(ins ssa.Instruction) {
+					if g, isGo := ins.(*ssa.Go); isGo {
+						n++
+						c.Check("R5", eg, "probes start only when enabled", g.Pos(), eng.GuardedByBool(g, isDisabledCall, false), "starting the prober goroutines must be control-dependent on !IstDisabled()")
+					}
+				})
+			}
 		}
 		if n == 0 {
 			c.Fail("R5", eg, "probes start only when enabled", eg.Pos(), "no probe start found")
 		}
 		// cancel on disabled
 		cancelled := false
-		for _, ci := range eng.Calls(eg) {
-			if ci.Common().IsInvoke() || ci.Common().StaticCallee() != nil {
-				continue
-			}
-			if sl.DerivesFrom(ci.Common().Value, func(v ssa.Value) bool { return eng.FieldLoadOf(v, tEndpointInfo, "cancelHealthCheck") }) {
-				if eng.GuardedByBool(ci, isDisabledCall, true) {
-					cancelled = true
+		for _, fn := range region {
+			for _, ci := range eng.Calls(fn) {
+				if ci.Common().IsInvoke() || ci.Common().StaticCallee() != nil {
+					continue
+				}
+				if sl.WithUp().DerivesFrom(ci.Common().Value, func(v ssa.Value) bool { return eng.FieldLoadOf(v, tEndpointInfo, "cancelHealthCheck") }) {
+					if eng.GuardedByBool(ci, isDisabledCall, true) {
+						cancelled = true
+					}
 				}
 			}
 		}
 		c.Check("R5", eg, "probes cancelled when disabled", eg.Pos(), cancelled, "the stored cancel function must be invoked on the IstDisabled() edge")
 	}
-	// probe function invoked only from the health-check loop
+	// probe function invoked only from the health-check loop: the invoking function runs only as part
+	// of the function that starts the probe goroutines (a closure of it, or a method / function it
+	// starts with go and nobody else calls)
 	nProbe := 0
 	for _, fn := range c.W.FuncsOf(pkgClusters) {
 		for _, ci := range eng.Calls(fn) {
@@ -450,11 +685,7 @@ func c03(c *eng.Ctx) {
 			}
 			if eng.FieldLoadOf(ci.Common().Value, tEndpointInfo, "healthCheckFun") {
 				nProbe++
-				outer := fn
-				for outer.Parent() != nil {
-					outer = outer.Parent()
-				}
-				c.Check("R5", fn, "probe invoked only by the health-check loop", ci.Pos(), outer.Name() == "startGatewayHealthCheck", "healthCheckFun may be called only inside startGatewayHealthCheck's goroutine")
+				c.Check("R5", fn, "probe invoked only by the health-check loop", ci.Pos(), start != nil && c.W.RunsOnlyUnder(fn, start), "healthCheckFun may be called only inside startGatewayHealthCheck's goroutine")
 			}
 		}
 	}
@@ -463,113 +694,294 @@ func c03(c *eng.Ctx) {
 	}
 }
 
+// c14Ticket locates the atomic ticket increment of a Pop implementation: the single
+// atomic.AddUint64 executed as part of Pop, in Pop itself or in a helper it calls.
+func c14Ticket(tree *eng.DownTree) (add *ssa.Call, n int) {
+	for _, fn := range tree.Funcs() {
+		for _, ci := range eng.CallsTo(fn, "sync/atomic.AddUint64") {
+			n++
+			if call, ok := ci.(*ssa.Call); ok {
+				add = call
+			}
+		}
+	}
+	return add, n
+}
+
+// c14IsBalancer: the receiver of the sync.Map call cc is the loadbalancer field of a
+// ClusterInfo — directly, or (the map handed to a helper as *sync.Map) in every context in
+// which the call runs as part of the tree's anchor.
+func c14IsBalancer(tree *eng.DownTree, cc ssa.CallInstruction) bool {
+	recv := eng.Receiver(cc)
+	if recv == nil {
+		return false
+	}
+	if eng.FieldAddrOf(recv, tClusterInfo, "loadbalancer") {
+		return true
+	}
+	ds := tree.Of(cc.Parent())
+	for _, d := range ds {
+		if !eng.FieldAddrOf(d.Canon(recv).V, tClusterInfo, "loadbalancer") {
+			return false
+		}
+	}
+	return len(ds) > 0
+}
+
 func c14(c *eng.Ctx) {
 	c.Rule("R1", "round-robin arithmetic in Pop: the ticket is atomic.AddUint64(p, 1) on a counter obtained from the cluster's balancer map under a key derived from the ready slice; the index is ticket % uint64(len(ready)) of the same slice the result is read from; a single ready endpoint is returned directly; the balancer map is reset when the server set changes", 6)
-	sl := c.Slicer()
+	dsl := deepSlicer(c)
+	// Pop may be spread over helpers (round-robin helper taking the ready slice, index helper
+	// taking the cursor map, key and count): the constructs are looked up in Pop's context tree
+	// and related through eng.Canon, which follows a value through parameters into the caller
+	// and through single-valued results into the helper.
 	for _, pop := range popImpls(c) {
-		adds := eng.CallsTo(pop, "sync/atomic.AddUint64")
-		if len(adds) != 1 {
-			c.Fail("R1", pop, "ticket = AddUint64(p, 1)", pop.Pos(), fmt.Sprintf("expected one atomic ticket increment, found %d", len(adds)))
+		tree := popTree(c, pop)
+		add, n := c14Ticket(tree)
+		if n != 1 || add == nil {
+			c.Fail("R1", pop, "ticket = AddUint64(p, 1)", pop.Pos(), fmt.Sprintf("expected one atomic ticket increment, found %d", n))
 			continue
 		}
-		add := adds[0].(*ssa.Call)
-		a := eng.Args(add)
-		one, isInt := eng.IntConst(a[1])
-		c.Check("R1", pop, "ticket = AddUint64(p, 1)", add.Pos(), isInt && one == 1, "consecutive unique tickets need an atomic increment by exactly 1")
-		// counter from the balancer map of the picker's cluster
-		var los *ssa.Call
-		fromLB := sl.DerivesFrom(a[0], func(v ssa.Value) bool {
-			cc, idx := eng.CallResultOf(v)
-			if cc != nil && idx == 0 && eng.IsCall(cc, "(*sync.Map).LoadOrStore") && eng.FieldAddrOf(eng.Receiver(cc), tClusterInfo, "loadbalancer") {
-				los = cc
-				return true
-			}
-			return false
-		})
-		c.Check("R1", pop, "counter from the cluster's balancer map", add.Pos(), fromLB, "the cursor must be the shared per-key counter stored in ClusterInfo.loadbalancer (LoadOrStore)")
-		// find the REM
-		var rem *ssa.BinOp
-		eng.Instrs(pop, func(ins ssa.Instruction) {
-			if b, ok := ins.(*ssa.BinOp); ok && b.Op == token.REM && sl.DerivesFrom(b.X, func(v ssa.Value) bool { return v == ssa.Value(add) }) {
-				rem = b
-			}
-		})
-		if rem == nil {
-			c.Fail("R1", pop, "index = ticket % len(ready)", add.Pos(), "no modulo of the ticket found")
-			continue
+		type verdict struct {
+			ok   bool
+			pos  token.Pos
+			seen bool
 		}
-		var lenOf ssa.Value
-		y := rem.Y
-		if cv, ok := y.(*ssa.Convert); ok {
-			y = cv.X
-		}
-		if lc, ok := y.(*ssa.Call); ok && isBuiltin(lc, "len") {
-			lenOf = lc.Call.Args[0]
-		}
-		c.Check("R1", pop, "index = ticket % len(ready)", rem.Pos(), lenOf != nil && isEndpointSlice(lenOf.Type()) && rem.X == ssa.Value(add), "the modulus must be exactly the number of ready endpoints and the dividend the ticket itself")
-		// result read from the same slice at that index
-		okRet := false
-		eng.Instrs(pop, func(ins ssa.Instruction) {
-			r, ok := ins.(*ssa.Return)
-			if !ok || len(r.Results) != 2 {
-				return
+		constructs := []string{"ticket = AddUint64(p, 1)", "counter from the cluster's balancer map", "index = ticket % len(ready)", "result = ready[index] of the same slice", "one counter per ready set", "single ready endpoint shortcut"}
+		res := map[string]*verdict{}
+		note := func(k string, pos token.Pos, ok bool) {
+			v := res[k]
+			if v == nil {
+				v = &verdict{ok: true, pos: pos}
+				res[k] = v
 			}
-			if u, ok := r.Results[0].(*ssa.UnOp); ok {
-				if ia, ok := u.X.(*ssa.IndexAddr); ok && ia.Index == ssa.Value(rem) {
-					okRet = ia.X == lenOf
+			v.seen = true
+			v.ok = v.ok && ok
+		}
+		effRets := tree.Root.EffectiveReturns()
+		// every obligation is decided in each context in which the increment runs as part of Pop
+		for _, d := range ctxsOf(tree, add.Parent()) {
+			a := eng.Args(add)
+			one, isInt := eng.IntConst(d.Canon(a[1]).V)
+			note(constructs[0], add.Pos(), isInt && one == 1)
+			// counter from the balancer map of the picker's cluster
+			var los *ssa.Call
+			fromLB := d.DerivesFrom(dsl, a[0], func(v ssa.Value) bool {
+				cc, idx := eng.CallResultOf(v)
+				if cc != nil && idx == 0 && eng.IsCall(cc, "(*sync.Map).LoadOrStore") && c14IsBalancer(tree, cc) {
+					los = cc
+					return true
+				}
+				return false
+			})
+			note(constructs[1], add.Pos(), fromLB)
+			// the modulo of the ticket
+			ticket := eng.DV{V: add, C: d}
+			var rem eng.DV
+			for _, dr := range tree.All() {
+				eng.Instrs(dr.Fn, func(ins ssa.Instruction) {
+					if b, ok := ins.(*ssa.BinOp); ok && b.Op == token.REM && dr.Canon(b.X).Same(ticket) {
+						rem = eng.DV{V: b, C: dr}
+					}
+				})
+			}
+			if rem.V == nil {
+				note(constructs[2], add.Pos(), false)
+				continue
+			}
+			rb := rem.V.(*ssa.BinOp)
+			// strip: canonical value of v (in context at) without integer conversions
+			strip := func(at *eng.DownCtx, v ssa.Value) eng.DV {
+				r := at.Canon(v)
+				for i := 0; i < 4; i++ {
+					cv, ok := r.V.(*ssa.Convert)
+					if !ok {
+						break
+					}
+					r = r.C.Canon(cv.X)
+				}
+				return r
+			}
+			var lenOf eng.DV
+			if y := strip(rem.C, rb.Y); y.V != nil {
+				if lc, ok := y.V.(*ssa.Call); ok && isBuiltin(lc, "len") {
+					lenOf = y.C.Canon(lc.Call.Args[0])
 				}
 			}
-		})
-		c.Check("R1", pop, "result = ready[index] of the same slice", rem.Pos(), okRet, "the element is read from the slice whose length is the modulus")
-		// key derives from the ready slice
-		if los != nil {
-			keyOK := c.Slicer().WithArgs().DerivesFrom(eng.Args(los)[0], func(v ssa.Value) bool { return v == lenOf })
-			c.Check("R1", pop, "one counter per ready set", los.Pos(), keyOK, "the balancer key must be derived from the ready slice (one cursor per ready order), not a constant")
-		}
-		// single-element shortcut returns element 0 of the same slice
-		short := false
-		eng.Instrs(pop, func(ins ssa.Instruction) {
-			r, ok := ins.(*ssa.Return)
-			if !ok || len(r.Results) != 2 {
-				return
+			note(constructs[2], rb.Pos(), lenOf.V != nil && isEndpointSlice(lenOf.V.Type()))
+			if lenOf.V == nil {
+				continue
 			}
-			if u, ok := r.Results[0].(*ssa.UnOp); ok {
-				if ia, ok := u.X.(*ssa.IndexAddr); ok {
-					if z, isInt := eng.IntConst(ia.Index); isInt && z == 0 && ia.X == lenOf {
-						short = eng.GuardedBy(r, func(rel eng.Rel) bool {
-							lc, ok := convOf(rel.X).(*ssa.Call)
+			// elemOf: v is ready[i] — returns the slice and the index
+			elemOf := func(at *eng.DownCtx, v ssa.Value) (slice, index eng.DV, ok bool) {
+				r := at.Canon(v)
+				u, isU := r.V.(*ssa.UnOp)
+				if !isU || u.Op != token.MUL {
+					return
+				}
+				ia, isIA := u.X.(*ssa.IndexAddr)
+				if !isIA {
+					return
+				}
+				return r.C.Canon(ia.X), eng.DV{V: ia.Index, C: r.C}, true
+			}
+			// result read from the same slice at that index; single-element shortcut returns
+			// element 0 of the same slice
+			okRet, short := false, false
+			for _, er := range effRets {
+				if len(er.Res) != 2 {
+					continue
+				}
+				slice, rawIndex, isElem := elemOf(er.Ctx, er.Res[0])
+				if !isElem || !slice.Same(lenOf) {
+					continue
+				}
+				// the index may be a variable that is 0 by default and overridden by the round-robin index
+				// (`var i uint64; if len(ready) != 1 { i = next() }; return ready[i]`): each value it may
+				// take is judged with the facts of the path that selects it
+				for _, alt := range rawIndex.C.Alternatives(rawIndex.V, er.Ret, nil) {
+					index := strip(alt.Ctx, alt.V)
+					facts := eng.Alt{Points: append(append([]eng.FactPoint{}, er.Points...), alt.Points...)}
+					if index.Same(rem) {
+						okRet = true
+					}
+					if z, isK := eng.IntConst(index.V); isK && z == 0 {
+						// the facts about len(ready) known when this return is taken must pin it to 1: `== 1`, or
+						// a combination such as `!= 0` (the empty case returned before) and `<= 1` (the
+						// round-robin override is taken when `> 1`)
+						lo, hi := int64(0), int64(1<<62)
+						var ne []int64
+						facts.Holds(func(rel eng.Rel, at *eng.DownCtx) bool {
+							rel = eng.NormRel(rel)
 							k, isK := eng.IntConst(rel.Y)
-							return ok && isBuiltin(lc, "len") && lc.Call.Args[0] == lenOf && isK && k == 1 && rel.Op == token.EQL
+							if !isK {
+								return false
+							}
+							x := strip(at, rel.X)
+							lc, ok := x.V.(*ssa.Call)
+							if !ok || !isBuiltin(lc, "len") || !x.C.Canon(lc.Call.Args[0]).Same(lenOf) {
+								return false
+							}
+							switch rel.Op {
+							case token.EQL:
+								if k > lo {
+									lo = k
+								}
+								if k < hi {
+									hi = k
+								}
+							case token.GTR:
+								if k+1 > lo {
+									lo = k + 1
+								}
+							case token.GEQ:
+								if k > lo {
+									lo = k
+								}
+							case token.LSS:
+								if k-1 < hi {
+									hi = k - 1
+								}
+							case token.LEQ:
+								if k < hi {
+									hi = k
+								}
+							case token.NEQ:
+								ne = append(ne, k)
+							}
+							return false
 						})
+						for changed := true; changed; {
+							changed = false
+							for _, k := range ne {
+								if k == lo && lo <= hi {
+									lo++
+									changed = true
+								}
+								if k == hi && lo <= hi {
+									hi--
+									changed = true
+								}
+							}
+						}
+						if lo == 1 && hi == 1 {
+							short = true
+						}
 					}
 				}
 			}
-		})
-		c.Check("R1", pop, "single ready endpoint shortcut", pop.Pos(), short, "with one ready endpoint element 0 of the ready slice is returned (only under len == 1)")
+			note(constructs[3], rb.Pos(), okRet)
+			note(constructs[5], pop.Pos(), short)
+			// key derives from the ready slice
+			if los != nil {
+				keyOK := true
+				for _, dk := range ctxsOf(tree, los.Parent()) {
+					if !dk.DerivesFrom(dsl.WithArgs(), eng.Args(los)[0], func(v ssa.Value) bool { return v == lenOf.V }) {
+						keyOK = false
+					}
+				}
+				note(constructs[4], los.Pos(), keyOK)
+			}
+		}
+		details := map[string]string{
+			constructs[0]: "consecutive unique tickets need an atomic increment by exactly 1",
+			constructs[1]: "the cursor must be the shared per-key counter stored in ClusterInfo.loadbalancer (LoadOrStore)",
+			constructs[2]: "the modulus must be exactly the number of ready endpoints and the dividend the ticket itself",
+			constructs[3]: "the element is read from the slice whose length is the modulus",
+			constructs[4]: "the balancer key must be derived from the ready slice (one cursor per ready order), not a constant",
+			constructs[5]: "with one ready endpoint element 0 of the ready slice is returned (only under len == 1)",
+		}
+		for _, k := range constructs {
+			if v := res[k]; v != nil && v.seen {
+				c.Check("R1", pop, k, v.pos, v.ok, details[k])
+			}
+		}
 	}
-	if se := c.MustMethod(pkgClusters, "ClusterInfo", "syncEndpoints"); se != nil {
-		sts := eng.StoresToField([]*ssa.Function{se}, tClusterInfo, "loadbalancer")
+	se := c03SyncAnchor(c)
+	if se != nil {
+		sts := eng.StoresToField(c.W.Region(se), tClusterInfo, "loadbalancer")
 		c.Check("R1", se, "balancer reset on server-set change", se.Pos(), len(sts) > 0, "cursors keyed by the old ready sets must be dropped when servers are added or removed")
 	}
 	// R2: nothing else disturbs a cursor while the ready set is stable
 	c.Rule("R2", "rotation is not disturbed: the cursor is modified only by the atomic increment of Pop (no store, swap or compare-and-swap on it), and the balancer map is replaced only by the constructor and by syncEndpoints on the edge where servers were added or removed", 2)
 	for _, pop := range popImpls(c) {
-		adds := eng.CallsTo(pop, "sync/atomic.AddUint64")
-		if len(adds) != 1 {
+		add, n := c14Ticket(popTree(c, pop))
+		if n != 1 || add == nil {
 			continue
 		}
-		cursor := eng.Args(adds[0])[0]
+		cursor := eng.Args(add)[0]
 		bad := ""
-		sl := c.Slicer()
+		slu := c.Slicer().WithUp()
+		mayBeBalancer := func(recv ssa.Value) bool {
+			return recv != nil && slu.DerivesFrom(recv, func(x ssa.Value) bool { return eng.FieldAddrOf(x, tClusterInfo, "loadbalancer") })
+		}
 		fromLB := func(v ssa.Value) bool {
-			return v == cursor || sl.DerivesFrom(v, func(x ssa.Value) bool {
+			if v == cursor {
+				return true
+			}
+			// the address of a field of a local struct (a value holding the cursor pointer next to other
+			// data) is not the cursor
+			if fa, isFA := v.(*ssa.FieldAddr); isFA {
+				if _, local := fa.X.(*ssa.Alloc); local {
+					return false
+				}
+			}
+			// a cursor is a *uint64
+			pt, isPtr := v.Type().Underlying().(*types.Pointer)
+			if !isPtr {
+				return false
+			}
+			if b, isB := pt.Elem().Underlying().(*types.Basic); !isB || b.Kind() != types.Uint64 {
+				return false
+			}
+			return slu.DerivesFrom(v, func(x ssa.Value) bool {
 				cc, _ := eng.CallResultOf(x)
-				return cc != nil && eng.IsCall(cc, "(*sync.Map).LoadOrStore", "(*sync.Map).Load") && eng.FieldAddrOf(eng.Receiver(cc), tClusterInfo, "loadbalancer")
+				return cc != nil && eng.IsCall(cc, "(*sync.Map).LoadOrStore", "(*sync.Map).Load") && mayBeBalancer(eng.Receiver(cc))
 			})
 		}
 		for _, fn := range c.W.FuncsOf(pkgClusters) {
 			for _, ci := range eng.Calls(fn) {
-				if ci == adds[0] {
+				if ci == ssa.CallInstruction(add) {
 					continue
 				}
 				if eng.IsCall(ci, "sync/atomic.StoreUint64", "sync/atomic.SwapUint64", "sync/atomic.CompareAndSwapUint64", "sync/atomic.AddUint64") && fromLB(eng.Args(ci)[0]) {
@@ -582,102 +994,203 @@ func c14(c *eng.Ctx) {
 				}
 			})
 		}
-		c.Check("R2", pop, "cursor advanced only by the atomic increment", adds[0].Pos(), bad == "",
+		c.Check("R2", pop, "cursor advanced only by the atomic increment", add.Pos(), bad == "",
 			"a second writer of the cursor ("+bad+") races with concurrent pickers: e.g. a wrap-around compare-and-swap that loses the race resets the cursor at a non-multiple of k, so one endpoint is served twice per round")
 	}
+	ctor := c.W.Func(pkgClusters, "NewEmptyClusterInfo")
 	for i, st := range eng.StoresToField(c.W.AllRepoFuncs(), tClusterInfo, "loadbalancer") {
 		fn := st.Parent()
 		ok := false
 		why := "the balancer map is replaced outside the constructor and syncEndpoints: cursors restart although the ready set is unchanged (e.g. on any policy or logging update), so the same endpoint is picked twice in a row"
+		rep := fn
 		switch {
-		case fn.Name() == "NewEmptyClusterInfo":
+		case fn.Name() == "NewEmptyClusterInfo" || (ctor != nil && c.W.RunsOnlyUnder(fn, ctor)):
 			ok = true
-		case fn.Name() == "syncEndpoints" && eng.TypeName(fn.Signature.Recv().Type()) == tClusterInfo:
-			// unreachable when neither "added" nor "deleted" is non-empty: assume every `X.Len() > 0`
-			// test false (also when named through a local or combined by ||) and cut the edges that
-			// this assumption makes infeasible
-			reach := eng.ReachFromEntry(fn, eng.PathQuery{
-				Target: func(x ssa.Instruction) bool { return x == ssa.Instruction(st) },
-				BlockEdge: func(from *ssa.BasicBlock, idx int) bool {
-					iff, isIf := from.Instrs[len(from.Instrs)-1].(*ssa.If)
-					if !isIf {
-						return false
-					}
-					cond, neg := iff.Cond, false
-					for {
-						if u, isU := cond.(*ssa.UnOp); isU && u.Op == token.NOT {
-							cond, neg = u.X, !neg
-							continue
-						}
-						break
-					}
-					if !c14AssumedFalse(cond, map[ssa.Value]bool{}) {
-						return false
-					}
-					if neg {
-						return idx == 1
-					}
-					return idx == 0
-				},
+		case se != nil && c.W.RunsOnlyUnder(fn, se):
+			// unreachable when neither "added" nor "deleted" is non-empty: assume every `X.Len()` is 0
+			// (so `X.Len() > 0` is false and `X.Len() == 0` true, also when named through a local,
+			// combined by || / &&, negated into a guard clause or handed to a helper as a flag) and cut
+			// the edges that this assumption makes infeasible — in syncEndpoints and in every helper
+			// between it and the store
+			ok = !c.W.ReachFromEntryUp(se, st, func(from *ssa.BasicBlock, idx int) bool {
+				iff, isIf := from.Instrs[len(from.Instrs)-1].(*ssa.If)
+				if !isIf {
+					return false
+				}
+				val, known := c14UnderNoChange(iff.Cond, map[ssa.Value]bool{}, 0)
+				if !known {
+					return false
+				}
+				if val {
+					return idx == 1
+				}
+				return idx == 0
 			})
-			ok = reach == nil
 			why = "the balancer map is replaced although no server was added or removed"
+			rep = se
 		}
-		c.Check("R2", fn, fmt.Sprintf("balancer map replaced only on a server-set change#%d", i+1), st.Pos(), ok, why)
+		c.Check("R2", rep, fmt.Sprintf("balancer map replaced only on a server-set change#%d", i+1), st.Pos(), ok, why)
 	}
 }
 
-// c14AssumedFalse: v is false under the assumption that no set is non-empty (every
-// `X.Len() > 0` / `0 < X.Len()` / `X.Len() != 0` is false): such a comparison itself, the
-// constant false, or a phi all of whose feasible edges carry such values (the constant-true
-// edge of `a || b` comes from the true branch of `a`, infeasible under the assumption).
-func c14AssumedFalse(v ssa.Value, seen map[ssa.Value]bool) bool {
-	if seen[v] {
-		return true
+// c14UnderNoChange evaluates boolean v under the assumption that no set is non-empty (every
+// `X.Len()` is 0): a comparison of such a length with a constant, negations, boolean phis all
+// of whose feasible edges agree (the constant edge of `a || b` / `a && b` comes from the
+// branch of `a` that the assumption makes infeasible), comparisons with boolean constants,
+// and a boolean parameter of a helper that is bound to such a value at every call site.
+func c14UnderNoChange(v ssa.Value, busy map[ssa.Value]bool, depth int) (val, known bool) {
+	if v == nil || busy[v] || depth > 8 {
+		return false, false
 	}
-	seen[v] = true
+	busy[v] = true
+	defer delete(busy, v)
+	isLen := func(y ssa.Value) bool {
+		cc, _ := eng.CallResultOf(y)
+		return cc != nil && eng.MethodNameIs(cc, "Len")
+	}
 	switch x := v.(type) {
 	case *ssa.Const:
-		return eng.IsBoolConst(x, false)
-	case *ssa.BinOp:
-		isLen := func(y ssa.Value) bool {
-			cc, _ := eng.CallResultOf(y)
-			return cc != nil && eng.MethodNameIs(cc, "Len")
+		if eng.IsBoolConst(x, true) {
+			return true, true
 		}
-		isZero := func(y ssa.Value) bool { z, ok := eng.IntConst(y); return ok && z == 0 }
-		switch {
-		case isLen(x.X) && isZero(x.Y):
-			return x.Op == token.GTR || x.Op == token.NEQ
-		case isZero(x.X) && isLen(x.Y):
-			return x.Op == token.LSS || x.Op == token.NEQ
+		if eng.IsBoolConst(x, false) {
+			return false, true
+		}
+	case *ssa.UnOp:
+		if x.Op == token.NOT {
+			if b, ok := c14UnderNoChange(x.X, busy, depth+1); ok {
+				return !b, true
+			}
+		}
+	case *ssa.BinOp:
+		// a comparison of integer expressions over such lengths (`a.Len() > 0`, `0 < a.Len()`,
+		// `a.Len()+b.Len() != 0`, `a.Len() == b.Len()`)
+		if a, oka := intUnderNoChange(x.X, 0); oka {
+			if b, okb := intUnderNoChange(x.Y, 0); okb && (hasLen(x.X, isLen, 0) || hasLen(x.Y, isLen, 0)) {
+				switch x.Op {
+				case token.EQL:
+					return a == b, true
+				case token.NEQ:
+					return a != b, true
+				case token.LSS:
+					return a < b, true
+				case token.LEQ:
+					return a <= b, true
+				case token.GTR:
+					return a > b, true
+				case token.GEQ:
+					return a >= b, true
+				}
+			}
+		}
+		if x.Op == token.EQL || x.Op == token.NEQ {
+			a, oka := c14UnderNoChange(x.X, busy, depth+1)
+			b, okb := c14UnderNoChange(x.Y, busy, depth+1)
+			if oka && okb {
+				return (a == b) == (x.Op == token.EQL), true
+			}
 		}
 	case *ssa.Phi:
+		have := false
 		for i, e := range x.Edges {
+			if i >= len(x.Block().Preds) {
+				return false, false
+			}
 			pred := x.Block().Preds[i]
-			if iff, ok := pred.Instrs[len(pred.Instrs)-1].(*ssa.If); ok {
-				cond, neg := iff.Cond, false
-				for {
-					if u, isU := cond.(*ssa.UnOp); isU && u.Op == token.NOT {
-						cond, neg = u.X, !neg
-						continue
+			if iff, ok := pred.Instrs[len(pred.Instrs)-1].(*ssa.If); ok && pred.Succs[0] != pred.Succs[1] {
+				if cv, ok := c14UnderNoChange(iff.Cond, busy, depth+1); ok {
+					infeasible := pred.Succs[1]
+					if !cv {
+						infeasible = pred.Succs[0]
 					}
-					break
-				}
-				if c14AssumedFalse(cond, seen) {
-					infeasible := pred.Succs[0]
-					if neg {
-						infeasible = pred.Succs[1]
-					}
-					if infeasible == x.Block() && pred.Succs[0] != pred.Succs[1] {
+					if infeasible == x.Block() {
 						continue
 					}
 				}
 			}
-			if !c14AssumedFalse(e, seen) {
-				return false
+			b, ok := c14UnderNoChange(e, busy, depth+1)
+			if !ok || (have && b != val) {
+				return false, false
+			}
+			val, have = b, true
+		}
+		return val, have
+	case *ssa.Call:
+		// a predicate helper: every return agrees (its parameters are evaluated at their call sites)
+		callee := x.Call.StaticCallee()
+		if callee == nil || x.Call.IsInvoke() || !eng.Analysable(callee) || callee.Signature.Results().Len() != 1 {
+			return false, false
+		}
+		have := false
+		for _, r := range eng.Returns(callee) {
+			b, ok := c14UnderNoChange(eng.ReturnResults(r)[0], busy, depth+1)
+			if !ok || (have && b != val) {
+				return false, false
+			}
+			val, have = b, true
+		}
+		return val, have
+	case *ssa.Parameter:
+		ups := eng.UpArgs(x)
+		have := false
+		for _, a := range ups {
+			b, ok := c14UnderNoChange(a, busy, depth+1)
+			if !ok || (have && b != val) {
+				return false, false
+			}
+			val, have = b, true
+		}
+		return val, have
+	}
+	return false, false
+}
+
+// intUnderNoChange evaluates an integer expression in which every `X.Len()` is 0.
+func intUnderNoChange(v ssa.Value, depth int) (int64, bool) {
+	if depth > 6 {
+		return 0, false
+	}
+	if k, ok := eng.IntConst(v); ok {
+		return k, true
+	}
+	switch x := v.(type) {
+	case *ssa.Call, *ssa.Extract:
+		if cc, _ := eng.CallResultOf(v); cc != nil && eng.MethodNameIs(cc, "Len") {
+			return 0, true
+		}
+	case *ssa.Convert:
+		return intUnderNoChange(x.X, depth+1)
+	case *ssa.BinOp:
+		a, oka := intUnderNoChange(x.X, depth+1)
+		b, okb := intUnderNoChange(x.Y, depth+1)
+		if oka && okb {
+			switch x.Op {
+			case token.ADD:
+				return a + b, true
+			case token.SUB:
+				return a - b, true
+			case token.MUL:
+				return a * b, true
 			}
 		}
+	}
+	return 0, false
+}
+
+// hasLen: the expression mentions a length (so that a comparison of two constants is not taken
+// for a statement about the sets).
+func hasLen(v ssa.Value, isLen func(ssa.Value) bool, depth int) bool {
+	if depth > 6 {
+		return false
+	}
+	if isLen(v) {
 		return true
+	}
+	switch x := v.(type) {
+	case *ssa.Convert:
+		return hasLen(x.X, isLen, depth+1)
+	case *ssa.BinOp:
+		return hasLen(x.X, isLen, depth+1) || hasLen(x.Y, isLen, depth+1)
 	}
 	return false
 }
